@@ -20,10 +20,13 @@ let () =
       | "R" :: mode :: items ->
         let ls = List.map (fun it ->
             let i = String.index it ':' in
-            (nat_of_int (int_of_string (String.sub it 0 i)), zlist_of_hex (String.sub it (i + 1) (String.length it - i - 1)))) items in
+            (n_of_int (int_of_string (String.sub it 0 i)), zlist_of_hex (String.sub it (i + 1) (String.length it - i - 1)))) items in
         let f = feeder ls [] in
         let s = sent ls [] in
-        let out = cache_run (ans mode) ls in
+        (* mode n: a stateful child, answer number i (from 0) = decimal i ^ ":" ^ "<" ^ upper ^ ">" *)
+        let digits i = List.map (fun ch -> z_of_int (Char.code ch)) (List.init (String.length (string_of_int i)) (String.get (string_of_int i))) in
+        let numbering xs = List.mapi (fun i l -> digits i @ [z_of_int 58] @ ans "u" l) xs in
+        let out = if mode = "n" then cache_run_gen numbering ls else cache_run (ans mode) ls in
         let need = collector_needs (List.map fst f) [] in
         Printf.printf "sent=%s out=%s need=%s\n"
           (String.concat "," (List.map hex_of_zlist s))
